@@ -8,7 +8,8 @@
 (* integers / floats out of range.  The program of an item is              *)
 (* Header.pre \o line.                                                     *)
 (*   C30.cfg     exhaustive families (C30_STRLEN = max string length,      *)
-(*               C30_LINES = max lines of a multi-line literal)            *)
+(*               C30_LINES = max lines of a multi-line literal, C30_RICH,  *)
+(*               C30_FAMS = all | block)                                   *)
 (*   C30Sim.cfg  tlc -simulate: M random spellings per behaviour           *)
 (***************************************************************************)
 EXTENDS Lit, Json, IOUtils, TLCExt
@@ -118,7 +119,9 @@ BlockItem(lay) ==
 
 \* ---------------------------------------------------------------- exhaustive enumeration
 VARIABLE c
-Cases(L, K) == IntCases \cup FloatCases \cup StrCases(L) \cup {[fam |-> "block", lay |-> l] : l \in Layouts(K)}
+FamSel == IOEnv.C30_FAMS                  \* "all" or "block" (only the multi-line layouts)
+Cases(L, K) == (IF FamSel = "block" THEN {} ELSE IntCases \cup FloatCases \cup StrCases(L))
+               \cup {[fam |-> "block", lay |-> l] : l \in Layouts(K)}
 Item(x) == CASE x.fam = "int" -> IntItem(x) [] x.fam = "float" -> FloatItem(x) [] x.fam = "floatbig" -> FloatBigItem(x)
              [] x.fam = "str" -> StrItem(x) [] x.fam = "block" -> BlockItem(x.lay)
 Init == c \in Cases(StrLen, MaxLines)
